@@ -814,21 +814,26 @@ theorem closed_patch {U : Code} {s sb sb' : St} {t : Nat} {il' : Bool}
 
 def loopA (a : Abs) : Abs := { a with frames := .loop :: a.frames }
 
+/-- the loop before its `break` markers are patched -/
+theorem loop_unpatched {W : Code} {a : Abs}
+    (hW : ClosedB inR true known W (none, loopA a) (none, loopA a)) :
+    patchBreaks ([G.i .loop] ++ W) 0 (W.length + 1) ++ [G.i .endLoop] =
+        patchBreaks ([G.i .loop] ++ (W ++ [G.i .endLoop])) 0 (W.length + 1) ∧
+      ClosedB inR true known ([G.i .loop] ++ (W ++ [G.i .endLoop])) (none, a) (none, loopA a) := by
+  constructor
+  · have := patchBreaks_append_ins ([G.i .loop] ++ W) [.endLoop] 0 (W.length + 1)
+    simp only [ins_cons, ins_nil] at this
+    rw [← this, List.append_assoc]
+  · refine closed_wrap (s1 := (none, loopA a)) ?_ ?_ rfl rfl rfl rfl hW
+    · simp [trU, isRoutine, transfer, loopA]
+    · simp [trU, isRoutine, transfer, loopA]
+
 theorem closed_loop {W : Code} {a : Abs} {sb' : St} {il' : Bool}
     (hW : ClosedB inR true known W (none, loopA a) (none, loopA a)) :
     ClosedB inR il' known (patchBreaks ([G.i .loop] ++ W) 0 (W.length + 1) ++ [G.i .endLoop])
       (none, a) sb' := by
-  have e : patchBreaks ([G.i .loop] ++ W) 0 (W.length + 1) ++ [G.i .endLoop] =
-      patchBreaks ([G.i .loop] ++ (W ++ [G.i .endLoop])) 0 (W.length + 1) := by
-    have := patchBreaks_append_ins ([G.i .loop] ++ W) [.endLoop] 0 (W.length + 1)
-    simp only [ins_cons, ins_nil] at this
-    rw [← this, List.append_assoc]
+  obtain ⟨e, hU⟩ := loop_unpatched hW
   rw [e]
-  have hU : ClosedB inR true known ([G.i .loop] ++ (W ++ [G.i .endLoop])) (none, a)
-      (none, loopA a) := by
-    refine closed_wrap (s1 := (none, loopA a)) ?_ ?_ rfl rfl rfl rfl hW
-    · simp [trU, isRoutine, transfer, loopA]
-    · simp [trU, isRoutine, transfer, loopA]
   refine closed_patch hU (by simp) ?_
   have fx : run inR known [G.i .loop] (none, a) [G.i Instr.loop].length = (none, loopA a) := by
     simp [run_cons_succ, trU, isRoutine, transfer, loopA]
